@@ -40,5 +40,40 @@ func sweep(g *gen) []*Script {
 			}
 		}
 	}
+	// a request left unanswered while unrelated messages keep arriving more often than ReadTimeout:
+	// the call must still return after ReadTimeout (the timer belongs to the wait, not to the silence)
+	for _, mt := range methods {
+		for _, what := range []string{"stale", "options", "frame"} {
+			if what == "frame" && mt.m != "PLAY" && mt.m != "PAUSE" && mt.m != "RECORD" {
+				continue // elsewhere a frame ends the client at once
+			}
+			sc := &Script{Name: "sweep-drip", Cfg: Cfg{Proto: 3, RTms: g.rt}, Medias: medias, Prog: append(append([]Call{}, play...), Call{Api: "options"})}
+			if mt.m == "ANNOUNCE" || mt.m == "RECORD" {
+				sc.Prog = append(append([]Call{}, rec...), Call{Api: "options"})
+			}
+			sc.React = []Reaction{{M: mt.m, N: mt.n, Acts: []Action{{Kind: "drip", Method: what, Every: g.rt / 3, For: 8 * g.rt}}, Abs: "?"}}
+			out = append(out, sc)
+		}
+	}
+	// failure in one call, then the next call and Wait(): every kind of failure of the wait
+	for _, mt := range methods {
+		for k, acts := range [][]Action{
+			{{Kind: "req", Method: "SET_PARAMETER"}},
+			{{Kind: "req", Method: "GET_PARAMETER"}, {Kind: "resp"}},
+			{{Kind: "frame", Ch: 0, Payload: []byte{0x80, 96, 0, 1, 0, 0, 0, 1, 1, 2, 3, 4}}},
+			{{Kind: "resp", Muts: []Mut{{Op: "set", K: "CSeq", V: "31337"}}}},
+		} {
+			abs := []string{"q0", "q0|r", "f0", "r,cs=w"}[k]
+			if k == 2 && (mt.m == "PLAY" || mt.m == "PAUSE" || mt.m == "RECORD") {
+				continue // frames are legal there over TCP
+			}
+			sc := &Script{Name: "sweep-twostep", Model: true, Cfg: Cfg{Proto: 3, RTms: g.rt}, Medias: medias, Prog: append(append([]Call{}, play...), Call{Api: "options"})}
+			if mt.m == "ANNOUNCE" || mt.m == "RECORD" {
+				sc.Prog = append(append([]Call{}, rec...), Call{Api: "options"})
+			}
+			sc.React = []Reaction{{M: mt.m, N: mt.n, Acts: acts, Abs: abs}}
+			out = append(out, sc)
+		}
+	}
 	return out
 }
